@@ -149,3 +149,13 @@ func hxEqBytes(a, b []byte) bool {
 	return d == 0
 }
 
+
+func hxContains(hay, needle []byte) bool {
+	for i := 0; i+len(needle) <= len(hay); i++ {
+		if hxEqBytes(hay[i:i+len(needle)], needle) {
+			return true
+		}
+	}
+	return false
+}
+
